@@ -59,6 +59,8 @@ type World struct {
 	Prev []string // previous winners as the generator believes them
 	Extra []factom.FAAddress // fresh addresses that received funds
 	Rep  *Report
+	// bank scenario: randomBatch leaves transfers out of batches that hold a PEG request
+	NoTransferNextToRequest bool
 }
 
 func (w *World) roDB() *sql.DB {
@@ -256,6 +258,18 @@ func (w *World) randomBatch(h uint32) (factom.Entry, string) {
 				shape += "C"
 			}
 		}
+	}
+	if w.NoTransferNextToRequest && strings.Contains(shape, "T") && strings.Contains(shape, "P") && h+1 >= w.S.Acts.ConvLimit && h < w.S.Acts.V20 {
+		// (bank scenario) a transfer next to a PEG request wedges every later rated block of the
+		// bank era (known finding): leave the transfers out so that the era stays explorable
+		var kept []fat2.Transaction
+		for _, tx := range txs {
+			if len(tx.Transfers) == 0 {
+				kept = append(kept, tx)
+			}
+		}
+		txs = kept
+		shape = strings.Replace(shape, "T", "", -1)
 	}
 	return w.G.Batch(h, u, txs), shape
 }
